@@ -123,6 +123,9 @@ func run(d Desc) vh.Case {
 	}
 	o := Call(d.E, d.P, d.D, d.T)
 	p := d.P
+	if d.E == ED6HandleSt { // the Model's parameters (lease count, server DUID) are read from the real server
+		p = effP
+	}
 	if d.E == EFtpOut || d.E == EFtpIn || d.E == ESipOut {
 		// regexp / header matching and the rewriting it triggers are an oracle: the Model is told
 		// whether the payload was modified and covers the pass-through path only
@@ -275,7 +278,9 @@ func tlv8(r *vh.Rng, types []int) []byte {
 }
 
 var sseLines = []string{"data: {\"type\":\"heartbeat\",\"node_id\":\"a\"}\n", "data: \n", "\n", ": keepalive\n", "event: x\n", "data:{}\n", "data: {bad\n",
-	"data: {\"type\":\"add\",\"sessions\":[{\"session_id\":\"s1\",\"mac\":\"m\",\"ip\":\"10.0.0.2\"}]}\n", "data: ", "data", "data: x\r\n", "data: data: \n"}
+	"data: {\"type\":\"add\",\"sessions\":[{\"session_id\":\"s1\",\"mac\":\"m\",\"ip\":\"10.0.0.2\"}]}\n", "data: ", "data", "data: x\r\n", "data: data: \n",
+	// every prefix of a data line followed by the newline (the reader slices line[6:len-1])
+	"d\n", "da\n", "dat\n", "data\n", "data:\n", "data:x\n", "data:  \n", "data: \r\n"}
 var ftpLines = []string{"PORT 10,0,0,5,4,1", "port 1,2,3,4,5,6", "PORT 999,0,0,5,4,1", "EPRT |1|10.0.0.5|1234|", "EPRT |1|nonsense|80|", "EPRT |2|::1|80|",
 	"227 Entering Passive Mode (198,51,100,1,19,136)", "229 Entering Extended Passive Mode (|||6446|)", "USER anonymous", "", "PORT 1,2,3", "\r", "\n",
 	"PORT 99999999999999999999,0,0,0,0,0", "229 x (|||99999999999999999999|)"}
@@ -317,9 +322,60 @@ func paramsFor(e int, r *vh.Rng) []uint64 {
 		return []uint64{pppoe.ProtocolPAP, 0}
 	case ED6Handle:
 		return b2r(serverDUID())
+	case ERecvFrame:
+		if r.Chance(2, 3) {
+			return []uint64{1, uint64(r.Intn(2))}
+		}
+		return []uint64{0, 0}
+	case ED6HandleSt:
+		return []uint64{uint64(r.Intn(2)), uint64(r.Intn(2)), uint64(r.Intn(2)), uint64(r.Intn(4) / 3)}
 	}
 	return nil
 }
+
+func ether(dst []byte, et int, payload []byte) []byte {
+	return cat(dst, clientMAC, be16(et), payload)
+}
+
+var dstMACs = [][]byte{{0xff, 0xff, 0xff, 0xff, 0xff, 0xff}, serverMAC, {2, 0, 0, 0, 0, 7}}
+
+func dhcp4Base(r *vh.Rng) []byte {
+	mac := []byte{2, 0x44, 0, 0, 0, byte(r.Intn(24))}
+	b := make([]byte, 236)
+	b[0], b[1], b[2] = 1, 1, 6
+	copy(b[4:8], r.Bytes(4))
+	if r.Chance(1, 3) {
+		copy(b[24:28], []byte{192, 0, 2, 1}) // giaddr: relayed
+	}
+	copy(b[28:34], mac)
+	b = append(b, 99, 130, 83, 99)
+	b = append(b, 53, 1, []byte{1, 3, 3, 7, 4, 8, 2, 0}[r.Intn(8)])
+	if r.Bool() {
+		b = append(b, 50, 4, 192, 0, 2, byte(r.Intn(20)))
+	}
+	if r.Bool() {
+		b = append(b, 54, 4, 192, 0, 2, byte(1+r.Intn(2)))
+	}
+	if r.Chance(2, 3) {
+		o := tlv8(r, []int{1, 2, 1, 2, 5, 9})
+		b = append(b, 82, byte(len(o)))
+		b = append(b, o...)
+	}
+	if r.Bool() {
+		b = append(b, 61, 7, 1)
+		b = append(b, mac...)
+	}
+	if r.Chance(1, 4) {
+		b = append(b, 12, byte(3), 'c', 'p', 'e')
+	}
+	return append(b, 255)
+}
+
+var sseDataSamples = []string{`{"type":"heartbeat","node_id":"a"}`, `{"type":"add","sessions":[{"session_id":"s1","mac":"m","ip":"10.0.0.2"}]}`,
+	`{"type":"update","sessions":[{"session_id":"s1"},{"session_id":""}]}`, `{"type":"delete","sessions":[{"session_id":"s1"}]}`, `{"type":"delete","sessions":null}`,
+	`{"type":"full","sessions":[{"session_id":"s2","mac":"m"}]}`, `{"type":"full"}`, `{"type":"nonsense","sessions":[null]}`, `{"type":"add","sessions":[null,null]}`, `{}`, `null`, `[]`, `{"type":7}`,
+	`{"type":"add","sequence":18446744073709551615,"sessions":[{"session_id":"s3","vlan":-1}]}`}
+
 
 // valid (or nearly valid) encoding for an entry
 func base(e int, p []uint64, r *vh.Rng) []byte {
@@ -405,6 +461,40 @@ func base(e int, p []uint64, r *vh.Rng) []byte {
 		return tlv8(r, []int{1, 2, 1, 2, 5, 9})
 	case EVendor:
 		return tlv8(r, []int{1, 2, 3, 1})
+	case ERecvFrame:
+		dst := dstMACs[[]int{0, 1, 1, 1, 2}[r.Intn(5)]]
+		wrap := func(et int, pl []byte) []byte {
+			f := ether(dst, et, pl)
+			if r.Chance(1, 4) { // a station that does not own the live session
+				f[11] = 9
+			}
+			return f
+		}
+		switch r.Intn(5) {
+		case 0, 1:
+			if r.Chance(1, 3) { // PADT for the live session
+				return wrap(0x8863, hdr(pppoe.CodePADT, 1, nil))
+			}
+			return wrap(0x8863, base(EDiscovery, nil, r))
+		case 2, 3:
+			return wrap(0x8864, base(ESession, nil, r))
+		}
+		return ether(dst, []int{0x0800, 0x8863, 0x8864, 0x88a8, 0}[r.Intn(5)], r.Bytes(r.Intn(12)))
+	case ED6HandleSt:
+		ty := byte(1 + r.Intn(11))
+		cid := d6opt(dhcpv6.OptClientID, d6Prepared)
+		if r.Chance(1, 5) {
+			cid = d6opt(dhcpv6.OptClientID, cat(be16(1), r.Bytes(r.Intn(6))))
+		}
+		var sid []byte
+		if r.Chance(3, 4) {
+			sid = d6opt(dhcpv6.OptServerID, serverDUID())
+		}
+		return cat([]byte{ty}, r.Bytes(3), cid, sid, randD6Opts(r, 1))
+	case EDhcp4:
+		return dhcp4Base(r)
+	case ESseData:
+		return []byte(sseDataSamples[r.Intn(len(sseDataSamples))])
 	case ESse:
 		return joinLines(r, sseLines, []string{"", "", "\n"})
 	case EFtpOut, EFtpIn:
@@ -532,7 +622,9 @@ func d6Family() []Desc {
 	iaaddr := cat(make([]byte, 15), []byte{1}, be32(3600), be32(7200))
 	iapfx := cat(be32(3600), be32(7200), []byte{56}, make([]byte, 16))
 	ia := func(code int, inner []byte) []byte { return d6opt(code, cat(be32(1), be32(0), be32(0), inner)) }
-	ianas := [][]byte{nil, d6opt(3, nil), d6opt(3, []byte{1}), d6opt(3, make([]byte, 11)), ia(3, nil), ia(3, d6opt(5, iaaddr)),
+	inpool := cat([]byte{0x20, 0x01, 0x0d, 0xb8, 0, 1, 0, 0, 0, 0, 0, 0, 0, 0, 0, 5}, be32(3600), be32(7200)) // an address inside the server's pool
+	ianas := [][]byte{nil, d6opt(3, nil), d6opt(3, []byte{1}), d6opt(3, make([]byte, 11)), ia(3, nil), ia(3, d6opt(5, iaaddr)), ia(3, d6opt(5, inpool)),
+		ia(3, cat(d6opt(5, iaaddr), d6opt(5, inpool), d6opt(13, []byte{0, 0}))),
 		ia(3, d6opt(5, iaaddr[:23])), ia(3, d6opt(5, nil)), ia(3, cat(be16(5), be16(24), iaaddr[:10])), cat(be16(3), be16(12), make([]byte, 5))}
 	iapds := [][]byte{nil, d6opt(25, nil), d6opt(25, []byte{1}), d6opt(25, make([]byte, 11)), ia(25, nil), ia(25, d6opt(26, iapfx)),
 		ia(25, d6opt(26, iapfx[:24])), ia(25, d6opt(26, nil)), cat(be16(25), be16(12), make([]byte, 5))}
@@ -556,6 +648,9 @@ func d6Family() []Desc {
 			}
 		}
 		add(ty, cids[3], d6opt(2, sd), d6opt(14, nil), ia(3, d6opt(5, iaaddr)))
+		add(ty, cids[3], d6opt(14, nil))                // rapid commit and nothing else
+		add(ty, d6opt(14, nil), ia(3, nil))             // rapid commit without a Client ID
+		add(ty, cids[3], d6opt(2, sd), ia(3, d6opt(5, inpool)), ia(25, d6opt(26, iapfx)), d6opt(6, []byte{0, 23}))
 	}
 	return out
 }
@@ -590,7 +685,7 @@ func isPure(e int) bool {
 }
 
 func tailFor(e int, r *vh.Rng) []byte {
-	if e == EPADT || e == EDiscovery || e == ESession {
+	if e == EPADT || e == EDiscovery || e == ESession || e == ERecvFrame {
 		switch r.Intn(3) {
 		case 0:
 			return nil
@@ -605,6 +700,62 @@ func tailFor(e int, r *vh.Rng) []byte {
 
 var pureEntries = []int{EHeader, ETags, ELcpPacket, ELcpOptions, EPADT, EEcho, ED6Message, ED6Options, ED6IANA, ED6IAPD, ED6IAAddr, ED6IAPrefix, ED6DUID, EOpt82, EVendor}
 var statefulEntries = []int{EDiscovery, ESession, ELcpRecv, EIpcpRecv, EIp6cpRecv, EAuthRecv, ED6Handle, EFtpOut, EFtpIn, ESipOut}
+
+// entry points driven by the streams only (no exhaustive block of their own, or a shorter one)
+var streamOnlyEntries = []int{ERecvFrame, ED6HandleSt, EDhcp4, ESseData}
+
+// implOnlyEntry: handlers behind a third-party decoder (oracle); they have no Model, every input
+// runs on the real code under recover() + time limit and only a PANIC / HANG becomes a case
+func implOnlyEntry(e int) bool { return e == EDhcp4 || e == ESseData }
+
+// nestings: the same container nested in itself to depth 1..9 (and one level cut short)
+func nestings() []Desc {
+	var out []Desc
+	sd := serverDUID()
+	for depth := 1; depth <= 9; depth++ {
+		// DHCPv6: IA_NA > IAAddr > options > IA_NA > ...
+		inner := []byte{}
+		for k := 0; k < depth; k++ {
+			if k%2 == 0 {
+				inner = d6opt(5, cat(make([]byte, 16), be32(1), be32(2), inner))
+			} else {
+				inner = d6opt(3, cat(be32(1), be32(0), be32(0), inner))
+			}
+		}
+		iana := d6opt(3, cat(be32(1), be32(0), be32(0), inner))
+		for _, ty := range []byte{1, 3, 4, 5} {
+			for _, cut := range []int{0, 1, 5} {
+				body := cat(d6opt(1, d6Prepared), d6opt(2, sd), iana)
+				body = body[:len(body)-cut]
+				out = append(out, Desc{E: ED6Handle, P: b2r(sd), D: cat([]byte{ty, 1, 2, 3}, body)},
+					Desc{E: ED6HandleSt, P: []uint64{1, 1, 0, 0}, D: cat([]byte{ty, 1, 2, 3}, body)})
+			}
+		}
+		out = append(out, Desc{E: ED6IANA, D: iana[4:]}, Desc{E: ED6IAAddr, D: inner[4:]})
+		// PPPoE tags whose value is a tag list
+		tg := []byte{}
+		for k := 0; k < depth; k++ {
+			tg = cat(be16(0x0105), be16(len(tg)), tg)
+		}
+		out = append(out, Desc{E: ETags, D: tg}, Desc{E: EDiscovery, P: []uint64{0}, D: hdr(pppoe.CodePADI, 0, tg)},
+			Desc{E: ERecvFrame, P: []uint64{0, 0}, D: ether(dstMACs[0], 0x8863, hdr(pppoe.CodePADR, 0, cat(d6opt(0x0104, []byte("c")), tg)))})
+		// LCP Code-Reject carrying a Code-Reject carrying ...
+		pk := cp(1, 1, nil)
+		for k := 0; k < depth; k++ {
+			pk = cp(7, byte(k), pk)
+		}
+		out = append(out, Desc{E: ELcpRecv, P: []uint64{9, lastIDFor(ELcpRecv, 9)}, D: pk},
+			Desc{E: ESession, P: []uint64{1, 1}, D: hdr(0, 1, cat(be16(pppoe.ProtocolLCP), pk))},
+			Desc{E: ERecvFrame, P: []uint64{1, 1}, D: ether(serverMAC, 0x8864, hdr(0, 1, cat(be16(pppoe.ProtocolLCP), pk)))})
+		// option 82 / option 43 sub-options holding sub-options
+		o := []byte{}
+		for k := 0; k < depth && len(o) < 250; k++ {
+			o = cat([]byte{1, byte(len(o))}, o)
+		}
+		out = append(out, Desc{E: EOpt82, D: o}, Desc{E: EVendor, D: o})
+	}
+	return out
+}
 
 func main() {
 	cfg := vh.ParseFlags()
@@ -726,9 +877,10 @@ func main() {
 			}
 		}
 	}
-	// SSE reader: one HTTP exchange per input, so only lengths 0 and 1
+	// SSE reader: one HTTP exchange per input, so only lengths 0 and 1; the receive loop opens a server per input
 	for l := 0; l <= 1; l++ {
 		exh = append(exh, run(Desc{E: ESse, X: &Exh{Len: l}}))
+		exh = append(exh, run(Desc{E: ERecvFrame, P: []uint64{1, 1}, X: &Exh{Len: l}}))
 	}
 	ecfg := cfg
 	ecfg.Shard = 12
@@ -740,19 +892,30 @@ func main() {
 	if thorough {
 		nb, sample, nrand = 40, 40, 300
 	}
-	for _, e := range allE {
+	for _, e := range append(append([]int{}, allE...), streamOnlyEntries...) {
 		for b := 0; b < nb; b++ {
 			rr := r.Fork()
 			p := paramsFor(e, rr)
 			bs := base(e, p, rr)
-			emit(Desc{E: e, P: p, D: bs, T: tailFor(e, rr)}, "valid")
-			muts := mutations(bs, rr, 0)
+			if implOnlyEntry(e) {
+				probe(Desc{E: e, P: p, D: bs}, "valid")
+			} else {
+				emit(Desc{E: e, P: p, D: bs, T: tailFor(e, rr)}, "valid")
+			}
+			budget := 0
+			if e == EDhcp4 { // ~300-byte datagrams: cap the mutation fan-out
+				budget = 600
+			}
+			muts := mutations(bs, rr, budget)
 			// every mutation on the implementation; a sample through the Model too
 			step := len(muts)/sample + 1
 			off := rr.Intn(step)
 			for i, m := range muts {
 				d := Desc{E: e, P: p, D: m, T: tailFor(e, rr)}
-				if i%step == off {
+				if (e == ERecvFrame || e == EDiscovery || e == ESession || e == EPADT) && len(m) < len(bs) && string(bs[:len(m)]) == string(m) && rr.Bool() {
+					d.T = append([]byte(nil), bs[len(m):]...) // a truncated frame lying on top of the earlier, complete one: the stale bytes continue it
+				}
+				if i%step == off && !implOnlyEntry(e) {
 					emit(d, "mutated")
 				} else {
 					probe(d, "mutated")
@@ -766,7 +929,7 @@ func main() {
 				n = rr.Intn(2049)
 			}
 			d := Desc{E: e, P: paramsFor(e, rr), D: rr.Bytes(n), T: tailFor(e, rr)}
-			if k%3 == 0 {
+			if k%3 == 0 && !implOnlyEntry(e) {
 				emit(d, "random")
 			} else {
 				probe(d, "random")
@@ -822,6 +985,25 @@ func main() {
 	// cursor at 1 / 0xFFFE / 0xFFFF / 0, then three more CreateSession calls or ordinary PADRs
 	for _, p := range createSeqFamily() {
 		emit(Desc{E: ECreateSeq, P: p}, "session-table-boundary")
+	}
+	// the same DHCPv6 option family against a server WITH lease state: the client has no lease /
+	// a lease without address / with address / with address and prefix / pools exhausted
+	setups := [][]uint64{{0, 0, 0, 0}, {1, 0, 0, 0}, {1, 1, 0, 0}, {1, 1, 1, 0}, {1, 1, 1, 1}, {0, 0, 0, 1}}
+	for k, d := range d6Family() {
+		if len(d.D) < 8 || d.D[4] != 0 || d.D[5] != 1 || d.D[7] != 4 { // only datagrams that start with the prepared Client ID
+			continue
+		}
+		st := setups[k%len(setups)]
+		d2 := Desc{E: ED6HandleSt, P: st, D: d.D}
+		if d.D[0] == 3 || d.D[0] == 4 || d.D[0] == 5 || d.D[0] == 8 || k%5 == 0 {
+			emit(d2, "dhcpv6-lease-state")
+		} else {
+			probe(d2, "dhcpv6-lease-state")
+		}
+	}
+	// containers nested in themselves
+	for _, d := range nestings() {
+		emit(d, "nesting-depth")
 	}
 	// SSE reader
 	nsse := 25
